@@ -175,7 +175,11 @@ DOMNode *DOMParentNode::insertBefore(DOMNode *newChild, DOMNode *refChild) {
     if (newChild->getOwnerDocument() != fOwnerDocument)
         throw DOMException(DOMException::WRONG_DOCUMENT_ERR, 0, GetDOMParentNodeMemoryManager);
 
-    // Prevent cycles in the tree
+    // Prevent cycles in the tree: a node cannot be inserted into itself...
+    if(newChild==getContainingNode())
+        throw DOMException(DOMException::HIERARCHY_REQUEST_ERR,0, GetDOMParentNodeMemoryManager);
+
+    // ...or into one of its descendants
     //only need to do this if the node has children
     if(newChild->hasChildNodes()) {
         bool treeSafe=true;
